@@ -13,6 +13,8 @@ func init() {
 	commands["xss-replay"] = cmdXSSReplay
 	commands["xss-api"] = cmdXSSAPI
 	commands["xss-pred"] = cmdXSSPred
+	commands["xss-toks"] = cmdXSSToks
+	commands["xss-pump"] = cmdXSSPump
 }
 
 type inputLine struct {
@@ -213,4 +215,74 @@ func cmdXSSPred(args []string) int {
 		}()
 	}
 	return 0
+}
+
+// cmdXSSToks: vh xss-toks <cases.ndjson> <out.ndjson>
+// {in, ctx} -> {toks, xss, overrun, panic} from the real tokenizer / classifier.
+func cmdXSSToks(args []string) int {
+	sc, cin := openIn(args[0])
+	defer cin()
+	w, done := openOut(args[1])
+	defer done()
+	for sc.Scan() {
+		var il inputLine
+		if err := json.Unmarshal(sc.Bytes(), &il); err != nil {
+			fatal(err)
+		}
+		ctx := 0
+		if il.Ctx != nil {
+			ctx = *il.Ctx
+		}
+		writeJSON(w, safeXSS(i2b(il.In), ctx))
+	}
+	return 0
+}
+
+// cmdXSSPump: vh xss-pump <cases.ndjson> <size> <maxstack>
+// Each case {pre:[..], rep:[..]} is pumped to pre + rep^k of about <size> bytes and given to
+// the real IsXSS with the goroutine stack limited to <maxstack> bytes.  The index of the case
+// being run is written to stdout before it starts, so a crash (stack exhaustion is fatal in Go)
+// or a hang identifies its input.
+func cmdXSSPump(args []string) int {
+	sc, cin := openIn(args[0])
+	defer cin()
+	var size, maxstack int
+	fmt.Sscan(args[1], &size)
+	fmt.Sscan(args[2], &maxstack)
+	debugSetMaxStack(maxstack)
+	i := 0
+	for sc.Scan() {
+		var c struct {
+			Pre []int `json:"pre"`
+			Rep []int `json:"rep"`
+		}
+		if err := json.Unmarshal(sc.Bytes(), &c); err != nil {
+			fatal(err)
+		}
+		fmt.Printf("start %d\n", i)
+		os.Stdout.Sync()
+		buf := make([]byte, 0, size+len(c.Pre)+len(c.Rep))
+		for _, v := range c.Pre {
+			buf = append(buf, byte(v))
+		}
+		for len(buf) < size && len(c.Rep) > 0 {
+			for _, v := range c.Rep {
+				buf = append(buf, byte(v))
+			}
+		}
+		r := apiXSSOnly(string(buf))
+		fmt.Printf("done %d %v %q\n", i, r.all, r.panic)
+		i++
+	}
+	return 0
+}
+
+func apiXSSOnly(in string) (r apiXSSResult) {
+	defer func() {
+		if x := recover(); x != nil {
+			r.panic = fmt.Sprint(x)
+		}
+	}()
+	r.all = lib.IsXSS(in)
+	return
 }
